@@ -93,6 +93,7 @@ def verify_function(w: World, specs: SpecSet, fq: str, timeout_ms: int = 10000, 
             eng.spec_mode = 0
             fr = Frame(fi.module, fi.qualname)
             fr.loop_ids = loop_ids
+            fr.local_types = c.local_types
             eng.frames = [fr]
             ptypes = eng.param_types(fi, c)
             param_refs = {}
